@@ -10,7 +10,8 @@ On top of the code state (`One`, `Mpsc`, `Notif`) the `…Sys` structures add
 * *ghost* history (what was sent / received, which receiver is still waiting un-woken) used only by theorems.
 
 An execution of the threads that own the handles is an arbitrary interleaving of critical sections = an
-arbitrary list of steps. Import-free. -/
+arbitrary list of steps. The mpsc channel is modelled WITH fixes/D39.patch (sender counting); `MpscSys.stepOld` keeps
+the code before the patch as a regression witness. Import-free. -/
 namespace DustVerif.Chan
 
 /-- result of a receiver poll: `ready v` = `Poll::Ready(Ok(v))` / `Ready(Some(v))`, `closed` =
@@ -151,27 +152,29 @@ def OneSys.outs (s : OneSys) : List OneOp → List Out
   | [] => []
   | op :: ops => (s.step op).2 :: OneSys.outs (s.step op).1 ops
 
-/-! ## multi-producer queue (mpsc.rs) -/
+/-! ## multi-producer queue (mpsc.rs, WITH fixes/D39.patch: sender counting) -/
 
-/-- `MpscInner<T>` mpsc.rs:28-32 (front of the `VecDeque` = head of the list) -/
+/-- `MpscInner<T>` (front of the `VecDeque` = head of the list); `senderCount` is added by fixes/D39.patch -/
 structure Mpsc where
   data : List Nat
   waker : Option Nat
   isClosed : Bool
+  senderCount : Nat
   deriving DecidableEq, Repr
 
-/-- mpsc.rs:14-26 -/
+/-- `mpsc_channel()` -/
 def Mpsc.init : Mpsc :=
   { data := []
     waker := none
-    isClosed := false }
+    isClosed := false
+    senderCount := 1 }
 
-/-- `MpscSender::send`, mpsc.rs:75-88; `ok = false` is `Err(MpscSenderError::Closed)` -/
+/-- `MpscSender::send`; `ok = false` is `Err(MpscSenderError::Closed)` -/
 def Mpsc.sendCS (c : Mpsc) (v : Nat) : Mpsc × Bool × Option Nat :=
   if c.isClosed then (c, false, none)
   else ({ c with data := c.data ++ [v], waker := none }, true, c.waker)
 
-/-- `Future for MpscReceiverFuture::poll`, mpsc.rs:111-123 -/
+/-- `Future for MpscReceiverFuture::poll` -/
 def Mpsc.pollCS (c : Mpsc) (w : Nat) : Mpsc × Res :=
   match c.data with
   | v :: rest => ({ c with data := rest }, .ready v)
@@ -179,11 +182,24 @@ def Mpsc.pollCS (c : Mpsc) (w : Nat) : Mpsc × Res :=
     if c.isClosed then (c, .closed)
     else ({ c with waker := some w }, .pending)
 
+/-- `Clone for MpscSender` with fixes/D39.patch: one critical section that counts the new handle -/
+def Mpsc.cloneCS (c : Mpsc) : Mpsc :=
+  { c with senderCount := c.senderCount + 1 }
+
+/-- `Drop for MpscSender` (added by fixes/D39.patch): the last handle closes the channel and wakes the receiver;
+    `none` = `sender_count -= 1` underflows (debug panic) -/
+def Mpsc.dropCS (c : Mpsc) : Option (Mpsc × Option Nat) :=
+  if c.senderCount = 0 then none
+  else if c.senderCount - 1 = 0 then some ({ c with senderCount := 0, isClosed := true, waker := none }, c.waker)
+  else some ({ c with senderCount := c.senderCount - 1 }, none)
+
 structure MpscSys where
   ch : Mpsc
   /-- typestate: ids of the sender handles that exist -/
   senders : List Nat
   rcvAlive : Bool
+  /-- a step hit the modelled debug panic -/
+  panicked : Bool
   /-- ghost: every value accepted by `send`, in order -/
   sent : List Nat
   /-- ghost: every value returned by `receive`, in order -/
@@ -195,15 +211,14 @@ def MpscSys.init : MpscSys :=
   { ch := Mpsc.init
     senders := [0]
     rcvAlive := true
+    panicked := false
     sent := []
     got := []
     waiting := none }
 
 inductive MpscOp where
   | send (sid : Nat) (v : Nat)
-  /-- `Clone for MpscSender` mpsc.rs:58-64: Arc clone only, no critical section -/
   | clone (sid : Nat) (new : Nat)
-  /-- there is NO `Drop for MpscSender`: only the Arc is released -/
   | dropSender (sid : Nat)
   | poll (w : Nat)
   | dropReceiver
@@ -228,10 +243,15 @@ def MpscSys.step (s : MpscSys) : MpscOp → MpscSys × Out
       | (c, false, wk) => ({ s with ch := c }, .sender false wk)
     else (s, .illegal)
   | .clone sid new =>
-    if hasId s.senders sid && !hasId s.senders new then ({ s with senders := s.senders ++ [new] }, .unit)
+    if hasId s.senders sid && !hasId s.senders new then
+      ({ s with ch := s.ch.cloneCS, senders := s.senders ++ [new] }, .unit)
     else (s, .illegal)
   | .dropSender sid =>
-    if hasId s.senders sid then ({ s with senders := removeId s.senders sid }, .unit)
+    if hasId s.senders sid then
+      match s.ch.dropCS with
+      | none => ({ s with panicked := true }, .panic)
+      | some (c, wk) =>
+        ({ s with ch := c, senders := removeId s.senders sid, waiting := clearWaiting s.waiting wk }, .sender true wk)
     else (s, .illegal)
   | .poll w =>
     if s.rcvAlive then
@@ -244,6 +264,21 @@ def MpscSys.step (s : MpscSys) : MpscOp → MpscSys × Out
 def MpscSys.run (s : MpscSys) : List MpscOp → MpscSys
   | [] => s
   | op :: ops => MpscSys.run (s.step op).1 ops
+
+/-- the code BEFORE fixes/D39.patch (kept as regression witness): `Clone` was an `Arc` clone, there was no
+    `Drop for MpscSender`, so both were ownership-only steps and `is_closed` was never set -/
+def MpscSys.stepOld (s : MpscSys) : MpscOp → MpscSys × Out
+  | .clone sid new =>
+    if hasId s.senders sid && !hasId s.senders new then ({ s with senders := s.senders ++ [new] }, .unit)
+    else (s, .illegal)
+  | .dropSender sid =>
+    if hasId s.senders sid then ({ s with senders := removeId s.senders sid }, .unit)
+    else (s, .illegal)
+  | op => s.step op
+
+def MpscSys.runOld (s : MpscSys) : List MpscOp → MpscSys
+  | [] => s
+  | op :: ops => MpscSys.runOld (s.stepOld op).1 ops
 
 /-- what `receive` must answer according to the property: the oldest queued value; `closed` exactly when the queue
     is empty and no sender handle exists; otherwise wait -/
